@@ -71,3 +71,80 @@ def fn_named(mod, srcname):
     if len(c) != 1:
         raise AnalysisBroken('function %s: %d definitions in %s' % (srcname, len(c), mod.path))
     return c[0].name
+
+
+def class_methods(mod, scope_prefix):
+    """instantiated member functions of a class (debug-info scope prefix,
+    e.g. 'igris::static_vector<int, 4')"""
+    return sorted([f for f in mod.defined() if f.scope.startswith(scope_prefix)], key=lambda f: f.name)
+
+
+def base_name(f):
+    n = f.srcname
+    if n.startswith('operator'):
+        return n
+    return n.split('<', 1)[0]
+
+
+def run_class(rep, rule, mod, scope_prefix, sspec, table, default=None, externals=None, min_methods=1,
+              extra_structs=()):
+    """run every instantiated member of a class under its class contract.
+    table: list of (matcher, FnSpec-or-None); matcher is a base name or a
+    callable(fn); the first match wins; None skips the member (with reason
+    recorded by the caller).  Members without an entry use 'default'."""
+    it = Interp(mod, externals=externals)
+    run = ContractRun(it, [sspec] + list(extra_structs))
+    fns = class_methods(mod, scope_prefix)
+    if len(fns) < min_methods:
+        raise AnalysisBroken('%s: only %d members instantiated in %s (floor %d)'
+                             % (scope_prefix, len(fns), mod.path, min_methods))
+    used = 0
+    skipped = []
+    for f in fns:
+        spec = default
+        for (m, sp) in table:
+            if (callable(m) and m(f)) or (not callable(m) and base_name(f) == m):
+                spec = sp
+                break
+        if spec is None:
+            skipped.append(f.qualname)
+            continue
+        import copy
+        spec = copy.copy(spec)
+        st = dict(spec.structs or {})
+        for p in f.params:
+            if p['ty']['k'] == 'ptr':
+                from irlib import tyname
+                if p['name'] in ('this', 'other', 'oth') or tyname(p['ty']['elem']) == sspec.name:
+                    pass
+        # bind the class contract to every parameter of the class type
+        this_ty = None
+        for p in f.params:
+            if p['name'] == 'this':
+                this_ty = p['ty']['elem']
+        for p in f.params:
+            if p['ty']['k'] == 'ptr' and this_ty is not None and p['ty']['elem'] == this_ty:
+                st.setdefault(p['name'], sspec)
+        spec.structs = st
+        run.run(f.name, spec, fn=f)
+        used += 1
+    obs = summarize(it, run)
+    # report under demangled-ish names
+    for o in obs:
+        fobj = mod.fn(o['function'])
+        if fobj is not None and fobj.srcname:
+            o['function'] = fobj.qualname + sig_suffix(fobj)
+    rep.add_absint(rule, obs)
+    a = rep.extra.setdefault('absint', {})
+    a['accesses_checked'] = a.get('accesses_checked', 0) + it.checked
+    a['accesses_without_known_extent'] = a.get('accesses_without_known_extent', 0) + it.unchecked
+    a['loops_closed_by_invariant'] = a.get('loops_closed_by_invariant', 0) + it.loops_seen
+    a['functions_interpreted'] = sorted(set(a.get('functions_interpreted', [])) | it.functions_seen)
+    a.setdefault('members_skipped', []).extend(skipped)
+    return it, run, used
+
+
+def sig_suffix(f):
+    """short stable disambiguator for overloads: parameter type list"""
+    ps = [p['ty']['s'] for p in f.params if p['name'] != 'this']
+    return '(' + ','.join(ps) + ')' + (' const' if f.name.startswith('_ZNK') else '')
